@@ -366,3 +366,87 @@ def check_cover_tasks(P, R, key, rule="COVER.tasks"):
                     bad_slice = [x for x in sliced if not (x.slice.lower is None and x.slice.upper is None)]
                     R.check(not bad_slice, rule + "-whole", key, f"{t.id} reaches the reducer", "passed whole", f"a slice of the task list `{src(bad_slice[0]) if bad_slice else ''}` is reduced: some blocks never reach the M-step", st.lineno)
     return n
+
+
+SORTED_LABEL_SOURCES = ("unique_labels", "unique", "sorted", "range")
+
+
+def check_class_split(P, R, key="factor_analysis:FactorAnalysisBase.fit_using_array", rule="PARTITION.by-class"):
+    """In the Dask arm the array is split into one partition per class: a list built by appending X[y == c] for c running over
+    the *sorted* distinct labels (the position of a partition is its class id downstream: `enumerate(X)`), and nothing else."""
+    f = P.func(key)
+    R.analysed(f)
+    du = get_defuse(f, P)
+    sites = switch_sites(P, f) or [n for n in walk_no_nested(f.node) if isinstance(n, ast.If) and is_switch(n.test)]
+    n = 0
+    for site in sites:
+        # the task comprehension over the partitions
+        comps = []
+        for s_ in site.body:
+            for st, t, v, k in stores(s_):
+                if isinstance(v, ast.ListComp) and any(isinstance(c, ast.Call) and P.peel_call(c, f)[0] == "task" for c in ast.walk(v.elt)):
+                    comps.append((st, v))
+        for st, lc in comps:
+            it = lc.generators[0].iter
+            if not isinstance(it, ast.Name):
+                continue
+            # resolve the partition list through plain copies / tuple assignments
+            lists = set()
+            todo = [(it.id, du.stmt_of(st))]
+            seen = set()
+            while todo:
+                name, at = todo.pop()
+                for d in du.reaching(at, name):
+                    if id(d) in seen:
+                        continue
+                    seen.add(id(d))
+                    if d.how == "param":
+                        continue
+                    v = d.value
+                    if d.how == "assign" and isinstance(v, ast.Name):
+                        todo.append((v.id, d.stmt))
+                    elif d.how in ("assign", "unpack") and isinstance(v, ast.Tuple) and d.index is not None and d.index < len(v.elts) and isinstance(v.elts[d.index], ast.Name):
+                        todo.append((v.elts[d.index].id, d.stmt))
+                    elif d.how == "substore":
+                        lists.add(name)
+                        for pd in du.reaching(d.stmt, name):
+                            if id(pd) not in seen:
+                                todo.append((name, d.stmt))
+                                break
+                    else:
+                        lists.add(name)
+            for lname in sorted(lists):
+                # every definition of the list: `[]`, or append inside a loop over the sorted labels
+                for d in du.all_defs(lname):
+                    if d.how in ("param", "del") or not any(d.stmt is x for x in walk_no_nested(site)):
+                        continue
+                    n += 1
+                    what = f"{lname}: `{src(d.stmt)[:70]}`"
+                    if d.how == "assign" and isinstance(d.value, ast.List) and not d.value.elts:
+                        R.ok(rule, key, what, "starts empty", d.stmt.lineno)
+                        continue
+                    if d.how == "assign" and isinstance(d.value, ast.Tuple) and all(isinstance(e, ast.List) and not e.elts for e in d.value.elts):
+                        R.ok(rule, key, what, "starts empty", d.stmt.lineno)
+                        continue
+                    if d.how == "substore" and isinstance(d.stmt, ast.Expr) and isinstance(d.stmt.value, ast.Call) and d.stmt.value.func.attr == "append":
+                        call = d.stmt.value
+                        lp = getattr(d.stmt, "_parent", None)
+                        while lp is not None and not isinstance(lp, ast.For):
+                            lp = getattr(lp, "_parent", None)
+                        if lp is None or not isinstance(lp.target, ast.Name):
+                            R.violation(rule, key, what, "a partition is appended outside a loop over the class labels", d.stmt.lineno)
+                            continue
+                        cv = lp.target.id
+                        itx = lp.iter
+                        fn = src(itx.func).split(".")[-1] if isinstance(itx, ast.Call) else None
+                        sorted_src = fn in SORTED_LABEL_SOURCES and not any(k_.arg in ("return_index", "return_inverse") for k_ in getattr(itx, "keywords", []))
+                        R.check(sorted_src, rule + "-order", key, f"for {cv} in {src(itx)[:50]}", "classes in sorted label order (position = class id)", f"the classes are visited in the order given by `{src(itx)[:50]}`, which is not the sorted label order: downstream code addresses the partitions by position as class id (enumerate), so classes are crossed when the labels do not appear in sorted order", lp.lineno)
+                        a = call.args[0] if call.args else None
+                        ok_sel = False
+                        if isinstance(a, ast.Subscript):
+                            c = cone(du, a.slice, d.stmt, interproc=False)
+                            ok_sel = any(isinstance(x, ast.Compare) and isinstance(x.ops[0], ast.Eq) and cv in {n_.id for n_ in ast.walk(x) if isinstance(n_, ast.Name)} for x in c.nodes)
+                        R.check(ok_sel, rule + "-select", key, f"{lname}.append({src(a)[:40] if a is not None else ''})", "all samples whose label equals the class", "a partition is not selected by `label == class`", d.stmt.lineno)
+                        continue
+                    R.violation(rule, key, what, "the per-class partition list is (also) built by something else than appending `X[y == c]` for every class c: a partition may then hold only part of a class (e.g. one row block), and the per-class E-step estimates the latent variables from partial sessions", d.stmt.lineno)
+    return n
